@@ -1459,6 +1459,8 @@ struct TagOut {
     node_requests: u64,
     down_node_cases: u64,
     histories: u64,
+    misbehaving_node_cases: u64,
+    discarded_short_timeout: u64,
     perturbations: u64,
     big_fleet_broadcasts: u64,
     history_broadcasts: u64,
@@ -1580,6 +1582,53 @@ fn run_tag_config(kind: Kind, cfg: &TagCfg, cfg_idx: usize, nodes: &[Arc<FakeNod
             _ => {}
         }
         one_broadcast(kind, &fleet, rt, nodes, &member_tags, &qq, *down, reduce, with_params, &Value::Null, "", out);
+    }
+    // now and then: one node misbehaves in another way (silent until the timeout on every attempt, closes on the request,
+    // answers with an application error) under a SHORT node timeout and 1..2 attempts: the broadcast still returns exactly one
+    // result per addressed node, the misbehaving node's being an error
+    if cfg_idx % 32 == 5 {
+        let d = cfg_idx / 32 % n;
+        let mode = [Out::Silent, Out::AcceptClose, Out::AppErr, Out::Silent][cfg_idx / 32 / n % 4];
+        let attempts = 1 + cfg_idx / 7 % 2;
+        let short = Duration::from_millis(700);
+        let cfgs: Vec<NodeConfig> = (0..n).map(|i| node_config(&names[i], nodes[i].port, &cfg.tags[i], short)).collect();
+        let opts = FleetOptions { default_timeout: short, retry_policy: RetryPolicy { max_attempts: attempts, delay: Duration::from_millis(1) } };
+        let path = format!("/c19b/{}", TOKEN.fetch_add(1, Ordering::Relaxed));
+        let params = json!({"tok": path});
+        let no_tags: [&str; 0] = [];
+        nodes[d].set_mode(mode, 0);
+        let reduce = cfg_idx / 32 % 2 == 1;
+        let results: Vec<(String, Res)> = match (kind, reduce) {
+            (Kind::Sync, false) => Fleet::with_options(cfgs, opts).expect("fleet").broadcast_json(&path, Some(&params), &no_tags).into_iter().map(|(name, r)| { let nm = r.node.clone(); (name, res_of_json(r, &nm, &path)) }).collect(),
+            (Kind::Sync, true) => Fleet::with_options(cfgs, opts).expect("fleet").map_reduce_json(&path, Some(&params), &no_tags, |rs| rs.into_iter().map(|r| { let nm = r.node.clone(); (nm.clone(), res_of_json(r, &nm, &path)) }).collect()),
+            (Kind::Async, false) => rt.block_on(async { AsyncFleet::with_options(cfgs, opts).expect("fleet").broadcast_json(&path, Some(&params), &no_tags).await }).into_iter().map(|(name, r)| { let nm = r.node.clone(); (name, res_of_json(r, &nm, &path)) }).collect(),
+            (Kind::Async, true) => rt.block_on(async { AsyncFleet::with_options(cfgs, opts).expect("fleet").map_reduce_json(&path, Some(&params), &no_tags, |rs| rs.into_iter().map(|r| { let nm = r.node.clone(); (nm.clone(), res_of_json(r, &nm, &path)) }).collect::<Vec<(String, Res)>>()).await }),
+        };
+        nodes[d].set_mode(Out::Success, 0);
+        for nd in nodes {
+            let _ = drain_paths(nd);
+        }
+        let k = kind.name();
+        let healthy_timed_out = results.iter().any(|(nm, r)| *nm != names[d] && r.io_kind() == Some("TimedOut"));
+        if healthy_timed_out {
+            out.discarded_short_timeout += 1;
+        } else {
+            out.evals += 1;
+            out.broadcasts += 1;
+            out.misbehaving_node_cases += 1;
+            out.distinct.push(hash_of(&("misbehaving", k, n, d, mode.name(), attempts, reduce)));
+            let got: BTreeSet<String> = results.iter().map(|(nm, _)| nm.clone()).collect();
+            let want: BTreeSet<String> = names.iter().cloned().collect();
+            let scenario = json!({"part": "tags-misbehaving-node", "kind": k, "nodes": n, "misbehaving": d, "mode": mode.name(), "max_attempts": attempts, "node_timeout_ms": 700, "via": if reduce {"map_reduce_json"} else {"broadcast_json"}});
+            if got != want || results.len() != n {
+                out.findings.push((format!("C19:broadcast-result-count:{k}:node-{}", mode.cause()), format!("{} result(s) for {n} addressed nodes when node {d} is '{}' on every attempt (max_attempts {attempts}, node timeout 700 ms): results for {got:?}", results.len(), mode.name()), scenario.clone()));
+            }
+            if let Some((_, r)) = results.iter().find(|(nm, _)| *nm == names[d]) {
+                if r.is_ok() {
+                    out.findings.push((format!("C19:broadcast-wrong-result:{k}:node-{}", mode.cause()), format!("node {d} was '{}' but its result is {}", mode.name(), r.long()), scenario));
+                }
+            }
+        }
     }
 }
 
@@ -1854,6 +1903,8 @@ fn run_tags(args: &Args) -> Report {
         rep.count("node_side_requests_matched", o.node_requests);
         rep.count("passes_with_a_node_down", o.down_node_cases);
         rep.count("membership_histories_completed", o.histories);
+        rep.count("broadcasts_with_a_silent_closing_or_erroring_node", o.misbehaving_node_cases);
+        rep.count("short_timeout_broadcasts_discarded_because_a_healthy_node_timed_out", o.discarded_short_timeout);
         rep.count("connection_cache_perturbations_inside_histories", o.perturbations);
         rep.count("broadcasts_to_fleets_of_5_to_65_nodes", o.big_fleet_broadcasts);
         rep.count("broadcasts_inside_membership_histories", o.history_broadcasts);
